@@ -251,6 +251,8 @@ TransposeChecks(e) ==
   << <<"transpose.succeeds_when_spellable", AllSpellable(iv, e.up) => e.res.ok>>,
      \* relative to the source export (e.ref): judged when that export is what the specification says
      <<"transpose.result_grid", (BaseOK(e.ref) /\ AllSpellable(iv, e.up) /\ e.res.ok) => On(ts, mstarts)!GridMatches(e.res.grid, 2, Len(stages), DefaultOpts, TRUE)>>,
+     <<"transpose.result_grid_agnostic", ("res_agn" \in DOMAIN e /\ BaseOK(e.ref) /\ AllSpellable(iv, e.up) /\ e.res.ok /\ e.res_agn.ok) =>
+                                              On(ts, mstarts)!GridMatches(e.res_agn.grid, 2, Len(stages), [DefaultOpts EXCEPT !.enc = "aekern"], TRUE)>>,
      <<"transpose.round_trip_restores_source_export", e.res.ok => (e.back.ok /\ e.back.grid = ResOf(e.ref).grid)>>,
      <<"transpose.source_export_unchanged", e.src_after = ResOf(e.ref)>> >>
 TTranspose == /\ IsEvent("transpose") /\ UNCHANGED spVars /\ UNCHANGED snap0
